@@ -4,6 +4,7 @@
 #include "support/ufw.hpp"
 #include "shims/rings.h"
 #include <deque>
+#include <cmath>
 
 namespace c19 {
 
@@ -37,9 +38,9 @@ inline bool parse(const std::string &text, Case &c) {
 // element <-> model key: integral element types are the key itself; the double ring stores (key - 20) / 8, i.e. negative and fractional
 // values (an element that travels through an integer on its way is then no longer what was put in)
 template <class T> inline T to_elem(int64_t v) { return (T)v; }
-template <> inline double to_elem<double>(int64_t v) { return (double)(v - 20) / 8.0; }
+template <> inline double to_elem<double>(int64_t v) { return v == 7 ? -0.0 : (double)(v - 20) / 8.0; }   // key 7 is the negative zero (key 20 the positive one)
 template <class T> inline int64_t from_elem(T x) { return (int64_t)x; }
-template <> inline int64_t from_elem<double>(double x) { double k = x * 8.0; return (k == (double)(int64_t)k) ? (int64_t)k : INT64_MIN + 7; }
+template <> inline int64_t from_elem<double>(double x) { if (x == 0.0 && std::signbit(x)) return 7 - 20; double k = x * 8.0; return (k == (double)(int64_t)k) ? (int64_t)k : INT64_MIN + 7; }
 
 // uniform view on the instantiations
 template <class R, class T> struct Api {
